@@ -37,6 +37,17 @@ def run(ctx):
                 if x["signature"] in ("h2-not-delivered-after-negative-window", "h2-data-sent-at-negative-window"):
                     r["failures"].append({"case": {"h2": d}, "what": f"{x.get('got')} of {x.get('expected')} bytes, END_STREAM x{x.get('ends')}, reset {x.get('reset')}",
                                           "signature": "c02h2:" + x["signature"]})
+        # the response to a request that arrived as an h2c upgrade (stream 1 of the upgraded connection), also when the
+        # client's HTTP2-Settings is the empty payload (all defaults): status, body and END_STREAM reach the client
+        from . import c13
+
+        for kind in ("h2c", "h2c-empty-settings", "h2c-upper"):
+            o = c13.e2e_outcome(kind, None)
+            r["count"] += 1
+            r["dist"]["h2c_upgraded_responses"] = r["dist"].get("h2c_upgraded_responses", 0) + 1
+            if ("ResponseReceived", 1) not in o.get("h2", []) or ("StreamEnded", 1) not in o.get("h2", []):
+                r["failures"].append({"case": {"h2": {"opening": kind}}, "what": f"the upgraded request's response did not reach the client: {o.get('h2')}",
+                                      "signature": "c02h2:h2c-upgraded-response-lost"})
         return r
 
     return K.run_common(ctx, PROP, ["c02"], (250, 3000, 1000), (300, 3000, 1000), (300, 4000, 1500), kw,
